@@ -33,6 +33,8 @@ def check_cyk_matrix(cfg: str, word: str, answer: str) -> None:
                         feedback.append('Error: the entry {} contains unknown variables'.format(w))
 
         # check the sizes
+        if len(lines) != len(word):
+            feedback.append('Error: the table should consist of {} lines'.format(len(word)))
         for i, line in enumerate(lines):
             words = line.strip().split()
             if len(words) != i + 1:
